@@ -49,14 +49,15 @@ CHECKS = {
             'model\'s outcome (value or exception class) and the stored state on every enumerated client program, hence agree with each other.',
             'Deployments are the repository\'s own server classes on localhost in one process; exception classes abstracted per DESIGN 3.1 (raw NotFoundError and RpcError NOT_FOUND are one class).'),
     'C12': (MC, '5 C12', 'Delivery.tla (Spec A + per-incarnation delivered ghost) model-checked over its complete reachable graph with TLC; every transition replayed on the '
-            'real service hosting a recording designer through PolicyFactory (PartiallySerializableDesignerPolicy rebuilt per request, DesignerPolicy), incl. servicer restarts on an SQLite file',
+            'real service hosting a recording designer through PolicyFactory (PartiallySerializableDesignerPolicy rebuilt per request, DesignerPolicy), incl. servicer restarts on an SQLite file; '
+            'TrialView.tla (the filtered trial views the delivery rule reads through) model-checked and every (trial table, filter) query replayed into TrialFilter, both policy supporters and clients.Study.trials',
             'TLC checks ExactlyOnce / NothingMissedForever on the model and prints, for every transition, the exact arguments Designer.update must receive; the recording '
             'designer\'s log must equal them. The VIEW includes an ever-delivered ghost so that states the implementation distinguishes (its persisted id cache) are explored separately.',
             'Bounds: one study, ids <= 3 (4 thorough), 1-2 workers, batch <= 2; complete reachable graph for the stateful mode. The in-RAM kept policy (InRamDesignerPolicy) shares '
             '_SerializableDesignerPolicyBase with the rebuilt one and is not driven separately. Known finding F14 (id reuse) listed.'),
     'C16': (MC, '5 C16', 'SearchSpace.tla: TLC enumerates every ParameterConfig.factory argument combination, builder program, (flat space, typed assignment) pair and '
             'conditional-tree traversal over small universes and computes validity / normal form / membership / yielded parameters; each case executed on the real code',
-            'Exhaustive within the universes: 3 880 definitions, 240 builder programs, 88 308 (space, assignment) pairs (35% sample of two-parameter spaces in quick), '
+            'Exhaustive within the universes: 3 880 definitions, 350 builder programs, 88 308 (space, assignment) pairs (35% sample of two-parameter spaces in quick), '
             'every choose/skip sequence of 5 conditional trees in dfs and bfs order; TLC also checks on the model that a traversal yields exactly the active parameters.',
             'Universes are small by construction (values in half units -1..3.5, inf, nan; strings a, b, True, z; Python bool marked Unspecified).'),
     'C17': (MC, '5 C17', 'SearchSpace.tla presentation mode: TLC enumerates (conditional tree, stored trial) pairs and computes the typed values a client must read or that the trial must be rejected; '
